@@ -10,7 +10,7 @@ saved bytes of every other actor's object are unchanged; fresh constructions equ
 pristine reference taken at world start (each history runs in a pristine forked
 process); a suspended writer yields the bytes of an uninterrupted save.
 """
-from .. import builder, env, files, seeds, simio, snapshot, noise  # noqa: F401
+from .. import builder, env, files, seeds, simio, snapshot, noise, trash  # noqa: F401
 from ..runner import Acc
 from ..simio import Ctx, HarnessTimeout, active
 
@@ -301,6 +301,14 @@ def execute(case):
                     sess.apply({"k": "mod", "t": builder.TYPE_NAMES.index(tn)})
                     sess.apply({"k": "twin", "m": 0, "s": op.get("t", 0), "vs": [seeds.derive(op.get("t", 0), j) >> 2 for j in range(3)], "pay": True})
                     obj = load_bytes(sess.project.read())
+                elif how == "bigsampler":
+                    # a constructed Sampler whose first sample has a boundary-biased size (sizes are part of the swarm)
+                    obj = M.Sampler()
+                    smp = obj.samples[0] = M.Sampler.Sample()
+                    size = (1024, 65528, 65536, 65544, 1 << 18)[op.get("t", 0) % 5]
+                    smp.data = (bytes(range(256)) * (size // 256 + 1))[:size]
+                    smp.name = b"big"
+                    smp.volume = 33
                 elif how == "loadfile_unused":
                     pass
                 else:  # loadfile: the same file twice gives two independent objects
@@ -456,6 +464,19 @@ def execute(case):
                 check_others(None, i, "load_check")
                 probes["later_load_checked"] = probes.get("later_load_checked", 0) + 1
                 log.append((i, "load_check", n, b))
+            elif k == "scribble":
+                # an actor writes all over its own object graph IN PLACE (every list element, every field of
+                # every sample / envelope / mapping / MIDI map / note it can reach) and then lets go of it:
+                # whatever another actor's object, a later load or a later construction shares with it shows
+                n_ = trash.scribble(a["obj"], op.get("v", 0))
+                fired["scribbled_graph"] = fired.get("scribbled_graph", 0) + 1
+                probes["scribbled_leaves"] = probes.get("scribbled_leaves", 0) + n_
+                how_ = a["how"]
+                actors.pop(ai)
+                if actors:
+                    nontrivial = True
+                check_others(None, i, "scribble:" + how_)
+                log.append((i, "scribble", ai, n_))
             elif k == "drop":
                 # an actor lets go of its object: nothing the others hold may change
                 if len(actors) > 1:
@@ -517,6 +538,25 @@ def generate(seed, i, tier="quick"):
         t = focus_t if r.random() < 0.7 else r.randrange(1000)
         return {"k": "obtain", "how": how, "kind": kind, "t": t, "of": r.randrange(4)}
 
+    if r.random() < 0.08:
+        # swarm: the aliasing scenario - several actors hold copies of ONE thing (the same file loaded
+        # twice, a big-sample Sampler and its clones / reloads), one of them scribbles over its copy
+        t = focus_t if r.random() < 0.5 else r.randrange(1000)
+        first = r.choice([{"k": "obtain", "how": "loadfile", "t": t}, {"k": "obtain", "how": "bigsampler", "kind": "module", "t": r.randrange(5)},
+                          {"k": "obtain", "how": "twins", "t": r.randrange(1000)}])
+        ops.append(first)
+        for _ in range(r.randint(1, 3)):
+            ops.append(dict(first) if first["how"] == "loadfile" and r.random() < 0.6 else {"k": "obtain", "how": r.choice(["clone", "load", "clone"]), "of": r.randrange(4), "t": t})
+        for _ in range(r.randint(0, 3)):
+            ops.append({"k": "mutate", "a": r.randrange(4), "s": r.randrange(100000), "v": r.getrandbits(62), "bop": builder.gen_op(r)})
+        ops.append({"k": "scribble", "a": r.randrange(4), "v": r.randrange(1000)})
+        if first["how"] == "loadfile":
+            ops.append({"k": "load_check", "t": t})
+        ops.append({"k": "construct_check", "kind": focus_kind, "t": focus_t})
+        ops.append({"k": "scribble", "a": r.randrange(4), "v": r.randrange(1000)})
+        ops.append({"k": "obtain", "how": "load", "of": r.randrange(4), "t": t})
+        noise.sprinkle(r, ops)
+        return {"property": PROPERTY, "world": "actors", "layout": 2, "ops": ops}
     ops.append(obtain(True))
     # sometimes mutate A *before* B exists (class-level default contamination)
     for _ in range(r.choice([0, 0, 2, 5])):
@@ -526,8 +566,12 @@ def generate(seed, i, tier="quick"):
     for _ in range(r.randint(5, 40)):
         x = r.random()
         a = r.randrange(4)
-        if x < 0.62:
+        if x < 0.59:
             ops.append({"k": "mutate", "a": a, "s": r.randrange(100000), "v": r.getrandbits(62), "bop": builder.gen_op(r)})
+        elif x < 0.62:
+            ops.append({"k": "scribble", "a": a, "v": r.randrange(1000)})
+            if r.random() < 0.5:
+                ops.append({"k": "load_check", "t": focus_t if r.random() < 0.7 else r.randrange(1000)})
         elif x < 0.70:
             ops.append({"k": "save", "a": a})
         elif x < 0.79:
